@@ -87,11 +87,14 @@ impl RoutingTable {
             return false;
         }
 
-        if self
-            .buckets()
-            .values()
-            .any(|bucket| node.already_exists(&bucket.nodes))
-        {
+        // A node we already know (same id) is not competing with itself for its IP's slot,
+        // let it through so that the bucket can update its `last_seen`.
+        if self.buckets().values().any(|bucket| {
+            bucket.nodes.iter().any(|existing| {
+                existing.id() != node.id()
+                    && node.already_exists(std::slice::from_ref(existing))
+            })
+        }) {
             return false;
         };
 
